@@ -320,9 +320,3 @@ Example C17_nonvacuous_stale :
   map fst (run [(1%N, 1); (2%N, 21); (3%N, 42); (4%N, 42); (1%N, 42)]) =
     [Some false; Some false; Some false; Some false; Some true].
 Proof. split; vm_compute; reflexivity. Qed.
-
-(** Source constants.  The literals of the model behind this property are tied to the
-    constants of /repo's Go sources (Gen/Params.v, regenerated from the working tree on
-    every run) in Proofs/TiesVote.v; requiring that file here makes the obligations of this
-    property fail when a constant it depends on is edited in the source. *)
-Require Verif.Proofs.TiesVote.
